@@ -74,7 +74,9 @@ CHECKS = {
     "C18": ("exploration", "5/C18", "deterministic simulation: paired replays of one seeded run under equivalent parameter forms, bit-compared; counterfactual seam for the known summation-order finding",
             "Scalar vs constant-matrix lambda, scalar vs constant-vector beta, and int/float/NumPy-scalar forms of each scalar "
             "hyper-parameter (only where the type represents the value exactly), end to end and at the optimiser entry point; "
-            "bitwise comparison of whole results. Configuration-only: simulation contributes comparability."),
+            "bitwise comparison of whole results; the entry point also with other rho values and an adaptive-rho callback. The known "
+            "summation-order finding is attributed per case by a counterfactual seam, or - when a refactor bypasses that seam - "
+            "only if its precondition holds and the results agree to 1e-9. Configuration-only: simulation contributes comparability."),
     "C19": ("fault_enumeration", "5/C19", "deterministic simulation with fault injection: byte snapshots of caller-owned objects around every simulated call incl. calls aborted at enumerated fault points; SimPool direct mode exposes worker-side writes",
             "Series, their list, matrix lambda and vector beta in C/Fortran/strided/read-only layouts are snapshotted "
             "(bytes, shape, strides, dtype, flags) around successful calls, calls aborted by faults injected at points "
@@ -85,8 +87,9 @@ CHECKS = {
             "before/after/unpicklable result, phase before/after); each is exercised (all in thorough, a seeded third in "
             "quick) under a random simulated schedule and a subset under the real pool: the call must raise the injected "
             "error, return nothing, not deadlock, release the pool at the instant it raises (real pool: no live child), "
-            "and a following clean call must be bit-identical to the same call made before. Plus double faults, no-donor "
-            "and wrong-front-end failures."),
+            "and a following clean call must be bit-identical to the same call made before. Plus double faults, no-donor, "
+            "partial-donor-shortage and wrong-front-end failures, and a real-pool burst (calls in a row whose tasks all fail at "
+            "once, each under an alarm) that exposes clean-up code racing with the pool's own hand-over of tasks."),
 }
 
 PENDING = {}
